@@ -9,9 +9,13 @@ UnsupportedAttributeError counts as `None`, as in the function under test).
 import ast, os
 from harness import common
 
-INT_ATTRS = ["food", "wood", "gold", "stone", "starting_age", "lock_civ", "population_cap", "base_priority", "allied_victory",
+INT_ATTRS = ["lock_personality", "food", "wood", "gold", "stone", "starting_age", "lock_civ", "population_cap", "base_priority", "allied_victory",
              "string_table_name_id", "initial_camera_x", "initial_camera_y", "initial_player_view_x", "initial_player_view_y", "color"]
 G = {None: "N", True: "T", False: "F"}
+LINK_PROPS = {"_allied_victories": ("allied_victory", None, 0, 8), "_starting_ages": ("starting_age", False, 2, 7),
+              "_lock_civilizations": ("lock_civ", False, 0, 7), "_lock_personalities": ("lock_personality", False, 0, 7),
+              "_pop_caps": ("population_cap", None, 200, 8), "_base_priorities": ("base_priority", None, 0, 0),
+              "_string_table_player_names": ("string_table_name_id", None, -2, 8)}
 
 
 def call_sites(repo):
@@ -43,6 +47,11 @@ def run(R, drv, scn, rng, n, version):
     sites = call_sites(common.REPO)
     R.extra.setdefault("players_call_sites", len(sites))
     plan = [("site",) + s for s in sites]
+    # the route the commit takes: the link-name properties (they must exist - they are the names in `_link_list`); the
+    # parameters are the file format's (players in the list, default of the unused tail, tail length)
+    for prop, (attr, g, d, fill) in LINK_PROPS.items():
+        plan.append(("prop:" + prop, attr, g, d, fill))
+    generic_ok = callable(getattr(pm, "_player_attributes_to_list", None))
     for _ in range(n):
         plan.append(("rand", rng.choice(INT_ATTRS), rng.choice([None, True, False]), rng.choice([0, -1, 2, 72, 200]), rng.randint(0, 9)))
     cmds, want = [], []
@@ -55,10 +64,25 @@ def run(R, drv, scn, rng, n, version):
         for p in range(9):
             st, v = common.outcome(getattr, pm.players[p], attr)
             seen.append(v if st == "ok" and (v is None or isinstance(v, int)) else None)
-        st, lst = common.outcome(pm._player_attributes_to_list, attr, g, default=d, fill_empty=fill)
-        if st != "ok":
-            R.mismatch("_player_attributes_to_list raised", {"version": version, "attr": attr, "g": G[g], "default": d, "fill": fill, "error": lst})
-            continue
+        if kind.startswith("prop:"):
+            st, lst = common.outcome(getattr, pm, kind[5:])
+            if st == "ok" and lst is not None and any(v is not None and not isinstance(v, int) for v in lst):
+                continue
+            if st != "ok" or lst is None:
+                if all(v is None for v in seen) or lst == "UnsupportedAttributeError":
+                    continue                  # the version lacks the link: it is never pushed
+                R.mismatch("a per-player link property raised", {"version": version, "property": kind[5:], "players": seen, "error": lst})
+                continue
+        else:
+            if not generic_ok:
+                R.dist["players:generic-route-unavailable"] += 1
+                continue
+            st, lst = common.outcome(pm._player_attributes_to_list, attr, g, default=d, fill_empty=fill)
+            if st != "ok" and lst == "TypeError":
+                st, lst = common.outcome(pm._player_attributes_to_list, attr, g, d, fill)
+            if st != "ok":
+                R.dist["players:generic-route-unavailable"] += 1
+                continue
         cmds.append(f"plist {G[g]} {d} {fill} {fmt(seen)}")
         want.append((fmt(lst), {"version": version, "op": "plist", "attr": attr, "gaia_first": G[g], "default": d, "fill": fill, "players": seen}))
     for _ in range(max(4, n // 2)):
@@ -66,10 +90,16 @@ def run(R, drv, scn, rng, n, version):
         ln = rng.choice([16, 16, 9, 8, 12, rng.randint(0, 16)])
         lst = [None if rng.random() < 0.2 else rng.randint(-3, 300) for _ in range(ln)]
         attrs = {i: {} for i in range(9)}
+        if not callable(getattr(pmod, "_spread_player_attributes", None)):
+            R.dist["players:spread-route-unavailable"] += 1
+            continue
         st, e = common.outcome(pmod._spread_player_attributes, attrs, "k", lst, g)
         if st == "ok":
             got = " ".join(("None" if attrs[p]["k"] is None else str(attrs[p]["k"])) if "k" in attrs[p] else "absent" for p in range(9))
         else:
+            if e == "TypeError":
+                R.dist["players:spread-route-unavailable"] += 1
+                continue
             got = "raises:" + e
         cmds.append(f"pspread {G[g]} {fmt(lst)}")
         want.append((got, {"version": version, "op": "pspread", "gaia_first": G[g], "list": lst}))
